@@ -237,6 +237,30 @@ def grid_case(case, res):
                         res.violation("dedisperse|supplied chirp differs", f"supplied chirp gives a different result [{sub2}]",
                                       case, sub2)
                     res.outcome((N, keep, start))
+    # Dask-backed input: several DMs evaluated in ONE graph must each equal their own NumPy result
+    if N >= 8:
+        import dask
+        import dask.array as da
+        rng = np.random.default_rng(55)
+        x = rng.uniform(-1, 1, (N, nchan, 2)) + 1j * rng.uniform(-1, 1, (N, nchan, 2))
+        zn = factory.make("DualPolarizationSignal", x, sample_rate=sr_mhz * u.MHz, fc=fc_mhz * u.MHz, align=align, start_name="iso",
+                          pol_type="linear")
+        zd = type(zn).like(zn, da.from_array(x, chunks=(N, 1, 1)))
+        unit = dispersion.delay_samples(1, hz(zn.min_freq), hz(zn.center_freq), srx) - dispersion.delay_samples(1, hz(zn.max_freq), hz(zn.center_freq), srx)
+        dms = [pb.DM(float(F(t_) / unit)) for t_ in (1.7, -1.7, 2.9)]
+        refs = [np.asarray(pb.coherent_dedispersion(zn, d_).data) for d_ in dms]
+        outs = [pb.coherent_dedispersion(zd, d_) for d_ in dms]
+        got = dask.compute(*[o.data for o in outs], scheduler="synchronous")
+        res.transitions += 6
+        for k, (g, r) in enumerate(zip(got, refs)):
+            if g.shape != r.shape or (r.size and float(np.max(np.abs(g - r))) > 64 * EPS32):
+                res.violation("dedisperse|dask siblings", f"Dask-backed input, DM #{k} of three evaluated in one graph differs from its "
+                              f"NumPy result", case, {"k": k})
+        chs = dask.compute(*[d_.chirp_from_signal(zd) for d_ in dms], scheduler="synchronous")
+        for k, (c_, d_) in enumerate(zip(chs, dms)):
+            if not np.array_equal(c_, np.asarray(d_.chirp_from_signal(zn))):
+                res.violation("chirp|dask siblings", f"chirp #{k} of three built lazily in one graph differs from the eager chirp", case, {"k": k})
+        res.hits["dask-backed siblings"] += 1
     res.sample({"band_MHz": BANDS[case["band"]], "nchan": nchan, "align": align, "N": N, "dm": 1.0, "ref": "top"}, 1)
 
 
@@ -329,7 +353,7 @@ def main(argv=None):
         PID, gen_cases=gen_cases, check_case=check_case, describe=describe,
         required_hits=["chirp checked", "|phi| > 1000 cycles (reduction mod 1 matters)",
                        "block shorter than the sweep (empty result)", "cropped on both ends (reference inside band)",
-                       "reference outside the band", "infinite reference frequency", "DM stored in another unit", "wave packet moved by its delay", "DM then -DM"],
+                       "reference outside the band", "infinite reference frequency", "DM stored in another unit", "dask-backed siblings", "wave packet moved by its delay", "DM then -DM"],
         assumptions=["chirp is single precision by design; budget 8 eps32 + 2 pi |phi| 32 eps64 (1 + f_ref/|f - f_ref|) for the "
                      "float64 cancellation in 1/f_ref - 1/f", "Nyquist-bin frequency convention (+-sr/2) left open for even N",
                      "band-edge delays within 1e-9 of an integer leave the crop open"],
